@@ -16,6 +16,9 @@ import (
 // every build, and adds the tiny virtual package the calls go to.
 func schedFeature(repo, out string, replace map[string]string) {
 	files := []string{"src/service/transaction_pool.go", "src/service/simple_container.go"}
+	if len(schedFiles) > 0 {
+		files = schedFiles
+	}
 	skipFuncs := map[string]bool{"loop": true, "growRing": true, "newSimpleContainer": true, "newTransactionPool": true, "initTransactionPool": true}
 	total := 0
 	for _, rel := range files {
@@ -53,12 +56,20 @@ func schedFeature(repo, out string, replace map[string]string) {
 					return true
 				}
 				se, ok := ce.Fun.(*ast.SelectorExpr)
-				if !ok || (se.Sel.Name != "Lock" && se.Sel.Name != "Unlock") {
+				if !ok || (se.Sel.Name != "Lock" && se.Sel.Name != "Unlock" && se.Sel.Name != "RLock" && se.Sel.Name != "RUnlock") {
 					return true
 				}
 				from, to := fset.Position(ce.Pos()).Offset, fset.Position(ce.End()).Offset
 				recv := string(src[fset.Position(se.X.Pos()).Offset:fset.Position(se.X.End()).Offset])
-				edits = append(edits, edit{from, to, "verifsched." + se.Sel.Name + "(&" + recv + ")"})
+				// read locks are modelled as exclusive (a sound over-approximation of blocking for our
+				// scenarios: fewer interleavings of readers, never an impossible one)
+				name := strings.TrimPrefix(se.Sel.Name, "R")
+				if name == "Unlock" && se.Sel.Name == "RUnlock" {
+					name = "RUnlock"
+				} else if se.Sel.Name == "RLock" {
+					name = "RLock"
+				}
+				edits = append(edits, edit{from, to, "verifsched." + name + "(&" + recv + ")"})
 				return true
 			})
 			ast.Inspect(fd.Body, func(n ast.Node) bool {
@@ -139,6 +150,40 @@ func Unlock(m Locker) {
 	}
 	m.Unlock()
 }
+
+// RWLocker is what sync.RWMutex offers in addition.
+type RWLocker interface {
+	Locker
+	RLock()
+	RUnlock()
+}
+
+// RLock / RUnlock: under the scheduler a read lock is modelled as the exclusive lock
+// (owner bookkeeping by mutex identity); free running they are the real calls.
+func RLock(m RWLocker) {
+	if h := LockHook; h != nil {
+		h(readSide{m})
+		return
+	}
+	m.RLock()
+}
+
+func RUnlock(m RWLocker) {
+	if h := UnlockHook; h != nil {
+		h(readSide{m})
+		return
+	}
+	m.RUnlock()
+}
+
+// readSide adapts the read side of an RWMutex to Locker; it is comparable (struct of
+// one pointer-shaped interface), and Key() gives the scheduler the mutex identity so
+// that reader and writer contend on the same model lock.
+type readSide struct{ M RWLocker }
+
+func (r readSide) Lock()            { r.M.RLock() }
+func (r readSide) Unlock()          { r.M.RUnlock() }
+func (r readSide) Key() interface{} { return r.M }
 `
 	p := filepath.Join(out, "verifsched.go")
 	os.WriteFile(p, []byte(pkg), 0o644)
